@@ -174,8 +174,9 @@ package jschema
 // fresh slice under five inlined Node implementations) and is not claimed
 
 //@ func UserTypeNamesFromTypeConstraint
-//@   property C05 C09
+//@   property C05 C09 C16
 //@   may_panic
+//@   own_bounds
 //@   at call:Unquote assume len(arg0.data) <= 1099511627776
 //@   ensures forall i :: 0 <= i && i < len(result) ==> len(result[i]) > 0 && result[i][0] == 64
 
@@ -183,10 +184,13 @@ package jschema
 //- are returned (no internal `#0x...` name of an unnamed type leaks into UsedUserTypes()), and the k-th such name of
 //- the list is the k-th result (none is dropped, none is reordered)
 //@ func UserTypeNamesFromTypesListConstraint
-//@   property C05 C09
+//@   property C05 C09 C16
 //@   may_panic
+//@   own_bounds
 //@   ensures forall i :: 0 <= i && i < len(result) ==> len(result[i]) > 0 && result[i][0] == 64
 //@   at call:Names.after bind names = ret0
+//-  the list was built by constraint.(*TypesList).AddNameWithASTNode, its only mutator, whose contract keeps every name non-empty
+//@   at call:Names.after assume forall i :: 0 <= i && i < len(ret0) ==> len(ret0[i]) > 0
 //@   loop#1 invariant -1 <= rangeindex && rangeindex < len(names) && (res.arr == 0 || (fresh(res.arr) && live(res.arr)))
 //@   loop#1 invariant forall i :: 0 <= i && i < len(res) ==> len(res[i]) > 0 && res[i][0] == 64
 //@   loop#1 invariant len(res) == atcount(names, rangeindex + 1)
